@@ -286,4 +286,35 @@ theorem viaArms_proper {arms : List (Nat × Nat × Nat × List (Nat × Nat))} {n
     exact proper_none n
   · exact pm1Impl_proper hn h
 
+/-! ### the prime walk: first term and accumulation -/
+
+theorem walkStep_keeps {m g2 b2 : Nat} {w w' : W} {p : Nat} {fl : Bool} (h : walkStep m g2 b2 w p = some (w', fl)) :
+    Nat.gcd m w.product ∣ Nat.gcd m w'.product ∧
+      (w' = w ∨ (w.pPrev < p ∧ w'.pPrev = p ∧ w'.productsRev = w'.product :: w.productsRev ∧
+        w'.product = mulm m w.product (subm m w'.x (onem m)))) := by
+  unfold walkStep at h
+  split at h
+  · simp only [Option.some.injEq, Prod.mk.injEq] at h
+    rw [← h.1]; exact ⟨dvd_rfl, Or.inl rfl⟩
+  · rename_i hp
+    simp only at h
+    split at h
+    · exact absurd h (by simp)
+    · split at h
+      · exact absurd h (by simp)
+      · split at h
+        · exact absurd h (by simp)
+        · simp only [Option.some.injEq, Prod.mk.injEq] at h
+          obtain ⟨rfl, _⟩ := h
+          exact ⟨gcd_dvd_gcd_mul_mod m _ _, Or.inr ⟨by omega, rfl, rfl, rfl⟩⟩
+
+theorem walk_first_term (n b2 : Nat) (pp : Nat → Bool) (m g pPrev : Nat) (blk : List Nat) (ps : PrimeSieve)
+    (factors : List Nat) (nred : Nat) :
+    walk n b2 pp m g pPrev blk ps factors nred =
+      (expModn (mulm m) (onem m) g pPrev).bind fun x =>
+        walkOuter n b2 pp m (mulm m g g) 65600 ps blk
+          { x := x, product := subm m x (onem m), productsRev := [onem m], gaps := [mulm m g g], pPrev := pPrev } factors nred := by
+  unfold walk
+  cases expModn (mulm m) (onem m) g pPrev <;> rfl
+
 end Ymq.Pm1Impl
